@@ -144,7 +144,9 @@ type factsPat struct {
 }
 
 func factsPatterns(level int) []factsPat {
-	atoms := []string{"a", "b", "[ab]", "[^a]", ".", `\w`, "-", `\d`}
+	core := []string{"a", "b", "[ab]", "[^a]", ".", `\w`, "-", `\d`}
+	// the one- and two-item sequences and the alternations also use a wider set of atoms
+	atoms := append(append([]string(nil), core...), "[^ab]", `\W`, `\s`, "[a-]", "(?:ab)", "(?:a|-)", `\b`, "1", "(?i:a)", `[\w-[a]]`)
 	basicQ := []string{"", "*", "+", "?"}
 	fullQ := []string{"", "*", "+", "?", "*?", "+?", "{2}", "{1,2}"}
 	basic := factsItems(atoms, basicQ)
@@ -169,7 +171,7 @@ func factsPatterns(level int) []factsPat {
 	}
 	triples := small
 	if level >= 2 {
-		triples = basic
+		triples = factsItems(core, basicQ)
 	}
 	for _, x := range triples {
 		for _, y := range triples {
